@@ -59,24 +59,6 @@ def step_name(side, nr):
     tab = PARENT_STEP_NR if side == "parent" else CHILD_STEP_NR
     return tab.get(nr) or syslog.NAME.get(nr) or "sys%d" % nr
 
-# fault positions: step -> (scope, syscall nr, errnos tried first in quick, more errnos for thorough)
-# scope 0 = the calling thread (parent side); 3 = any process (child side: between arming and DISARM only the
-# forked child issues these calls, and "all" does not depend on the order in which the tracer sees fork event
-# and first stop of the new child)
-FAULTS = {
-    "pipe2": (0, NR["pipe2"], ["EMFILE", "ENFILE", "ENOMEM"], ["EPERM", "EMAX"]),
-    "open-devnull": (0, NR["openat"], ["EMFILE", "ENOENT", "EACCES"], ["ENOMEM", "EPERM", "EMAX"]),
-    "fork": (0, NR["fork"], ["EAGAIN", "ENOMEM"], ["EPERM", "EMAX"]),
-    "sync-pipe-read": (0, NR["read"], ["EIO", "EINTR", "EBADF"], ["EPERM", "EAGAIN", "EMAX"]),
-    "dup2": (3, NR["dup3"], ["EBADF", "EINVAL", "EMFILE"], ["EBUSY", "EINTR", "EPERM", "EMAX"]),
-    "chdir": (3, NR["chdir"], ["ENOENT", "EACCES", "ENOTDIR"], ["ELOOP", "ENAMETOOLONG", "ENOMEM", "EPERM", "EMAX"]),
-    "setuid": (3, NR["setuid"], ["EPERM", "EAGAIN", "EINVAL"], ["ENOMEM", "EMAX"]),
-    "setgid": (3, NR["setgid"], ["EPERM", "EINVAL"], ["ENOMEM", "EMAX"]),
-    "setpgid": (3, NR["setpgid"], ["EPERM", "ESRCH", "EACCES"], ["EINVAL", "EMAX"]),
-    "execve": (3, NR["execve"], ["ENOENT", "EACCES", "ENOEXEC"],
-               ["E2BIG", "ENOMEM", "ETXTBSY", "ENOTDIR", "ELOOP", "ENAMETOOLONG", "EPERM", "EFAULT", "EIO", "EMAX"]),
-}
-
 
 def hx(b):
     return bytes(b).hex()
@@ -483,91 +465,6 @@ def gen_real_failures(r, sh, helper, next_id, thorough):
     return out
 
 
-def gen_injections(r, sh, helper, next_id, thorough):
-    out = []
-    for step, (scope, nr, first, more) in FAULTS.items():
-        errs = list(first) + (list(more) if thorough else [])
-        if not thorough:
-            # quick: every position once with a seeded errno, plus the first errno of the list
-            errs = sorted(set([first[0], r.choice(first + more)]))
-        positions = [0]
-        if step in ("pipe2", "dup2", "open-devnull"):
-            positions = [0, 1, 2, 3] if step == "pipe2" else [0, 1, 2]
-        for k in positions:
-            for en in errs:
-                reps = 2 if thorough else 1
-                for _ in range(reps):
-                    c = gen_config(r, sh, helper, next_id(), light=not thorough or r.random() < 0.7)
-                    c["kind"] = "inject"
-                    if c.get("shared"):
-                        c["io"], c["shared"] = [None, r.choice([None, "n", "p"]), r.choice([None, "n", "p"])], None
-                    e = ERRNO[en]
-                    # make the configuration reach the step
-                    if c["uid"] not in (None, 0) and step != "setuid":
-                        c["uid"] = None
-                    if step == "pipe2":
-                        # position k: the k-th pipe2 of the spawn; stdio pipes come first, the sync pipe last
-                        npipes = r.randint(min(k, 3), 3)
-                        streams = [0, 1, 2]
-                        r.shuffle(streams)
-                        for s in range(3):
-                            c["io"][s] = "p" if s in streams[:npipes] else r.choice([None, "n", "i"])
-                        pos = min(k, npipes)
-                    elif step == "open-devnull":
-                        streams = [0, 1, 2]
-                        r.shuffle(streams)
-                        for s in range(3):
-                            if c["io"][s] == "n":
-                                c["io"][s] = r.choice([None, "p"])
-                        for s in streams[:k + 1]:
-                            c["io"][s] = "n"
-                        pos = k
-                    elif step == "dup2":
-                        streams = [0, 1, 2]
-                        r.shuffle(streams)
-                        have = n_fd_streams(c)
-                        for s in streams:
-                            if len(have) > k:
-                                break
-                            if s not in have:
-                                c["io"][s] = r.choice(["n", "p"])
-                                have = n_fd_streams(c)
-                        pos = k
-                    else:
-                        pos = 0
-                        if step == "sync-pipe-read" and c["io"][0] in ("p",):
-                            # the error path waits for the child while still holding the child's stdin pipe
-                            c["io"][0] = r.choice([None, "n", "r"])
-                        if step == "chdir" and c["cwd"] is None:
-                            c["cwd"] = os.path.join(sh.bdir, b"cwd-a")
-                            if c["bin"].startswith(b"./"):
-                                c["bin"] = os.path.join(sh.bdir, c["bin"][2:])
-                        if step == "setuid" and c["uid"] is None:
-                            c["uid"] = r.choice([0, 65534])
-                            c["gid"] = None
-                        if step == "setgid" and c["gid"] is None:
-                            c["gid"] = r.choice([0, 65534])
-                            c["uid"] = r.choice([None, 0])
-                        if step == "setpgid" and c["pg"] is None:
-                            c["pg"] = r.choice([0, -1])
-                    c["inj"] = [(scope, nr, pos, -e, 1)]
-                    c["fault"] = (step, pos, e)
-                    c["note"] = "inject %s#%d %s" % (step, pos, en)
-                    out.append(c)
-    # an interrupted sync-pipe read (once / twice / three times in a row) must be retried: expected result Ok
-    for count in (1, 2, 3):
-        for _ in range(3 if thorough else 2):
-            c = gen_config(r, sh, helper, next_id(), light=True)
-            c["kind"] = "inject"
-            if c["io"][0] == "p":
-                c["io"][0] = r.choice([None, "n", "r"])
-            c["inj"] = [(0, NR["read"], 0, -ERRNO["EINTR"], count)]
-            c["fault"] = ("sync-pipe-read", 0, ERRNO["EINTR"])
-            c["note"] = "inject sync-pipe-read EINTR x%d" % count
-            out.append(c)
-    return out
-
-
 # ------------------------------------------------------------------------------------------------
 # discovered fault enumeration: (mode, side, call, occurrence) cells read from un-injected traced runs
 # ------------------------------------------------------------------------------------------------
@@ -595,12 +492,12 @@ def mode_specs(seed, thorough):
     add("closed1-out-pipe", (None, "p", None), closed=[1])
     add("closed12-err-file-noprog", (None, None, "w"), closed=[1, 2], bad=True)
     add("files-noprog+settings", ("r", "w", "w"), settings=True, bad=True)
+    for i in range(40 if thorough else 12):
+        add("random%d" % i, rand=i)
     if thorough:
         for closed in ([0], [1], [2], [0, 1], [0, 2], [1, 2], [0, 1, 2]):
             for io in (("p", "p", "p"), ("n", None, "w"), ("r", "w", None), (None, "n", "p")):
                 add("closed%s-%s" % ("".join(map(str, closed)), "".join(x or "-" for x in io)), io, closed=closed, settings=len(m) % 2 == 0)
-        for i in range(40):
-            add("random%d" % i, rand=i)
     return m
 
 
@@ -634,8 +531,9 @@ def make_mode(spec, sh, helper, cid):
 
 def discover_cells(co, cid, P):
     """From an un-injected run: every system call the caller makes inside Command::spawn and every call the forked child
-    makes up to and including execve, as (side, nr, occurrence, scope, k) in program order, up to the first call that
-    fails by itself (what follows would be a double fault)."""
+    makes up to and including the one that execs, as dict(side, nr, occ, scope, k, name, after_fork) in program order, up to
+    the first call that fails by itself (what follows would be a double fault).  The process-creating call and the exec are
+    recognised by their effect in the tracer's log (F event with the new pid / E event), not by their number."""
     ent = [e.seq for e in co.pev if e.k == "M" and e.kind == 3 and e.a[0] == K_SPAWN_ENTER and e.a[1] == cid]
     ret = [e.seq for e in co.pev if e.k == "M" and e.kind == 3 and e.a[0] == K_RETURNED and e.a[1] == cid]
     if not ent or not ret:
@@ -643,43 +541,50 @@ def discover_cells(co, cid, P):
     enter, rets = ent[0], ret[0]
     dis = [e.seq for e in co.pev if e.k == "M" and e.kind == 7 and e.seq > rets]
     disarm = dis[0] if dis else rets
-    forks = sorted(ch["fork_seq"] for ch in co.children.values() if enter < ch["fork_seq"] < rets)
-    fork_seq = forks[0] if forks else None
+    kids = sorted((ch["fork_seq"], pid) for pid, ch in co.children.items() if enter < ch["fork_seq"] < rets and not ch.get("grand"))
+    fork_seq, Q = kids[0] if kids else (None, None)
     par = [e for e in co.pev if e.k == "S" and enter < e.seq < rets]
     par_all = [e for e in co.pev if e.k == "S" and enter < e.seq < disarm]
-    pre = [e for e in par if fork_seq is None or e.seq < fork_seq or e.nr in (NR["fork"], NR["clone"], NR["vfork"], NR["clone3"])]
-    post = [e for e in par if e not in pre]
+    creator = None
+    if fork_seq is not None:
+        # the call during which the F event was reported: the caller's first call completing after it, returning the new pid
+        for e in par:
+            if e.seq > fork_seq:
+                if e.ret == Q:
+                    creator = e
+                break
+    pre = [e for e in par if fork_seq is None or e.seq < fork_seq or e is creator]
+    post = [e for e in par if fork_seq is not None and e.seq > fork_seq and e is not creator]
     child = []
-    for pid, ch in co.children.items():
-        if fork_seq is not None and ch["fork_seq"] == fork_seq:
-            seen_exec = False
-            for e in ch["ev"]:
-                if e.k != "S" or seen_exec:
-                    continue
-                child.append(e)
-                if e.nr == NR["execve"]:
-                    seen_exec = e.ret == 0
-                    if e.ret == 0:
-                        break
+    if Q is not None:
+        ch = co.children[Q]
+        for e in ch["ev"]:
+            if e.k != "S":
+                continue
+            child.append(e)
+            if ch["exec_seq"] is not None and e.seq > ch["exec_seq"]:
+                break           # first call completing after the E event: the exec itself
     cells = []
     occ = {}
-    for side, evs in (("parent", pre), ("child", child), ("parent", post)):
+    for side, evs, after in (("parent", pre, False), ("child", child, True), ("parent", post, True)):
         for e in evs:
             if e.nr in NEVER_REFUSED:
                 continue
-            if e.ret < 0 and not (e.nr == NR["read"] and e.ret == -4):
+            if e.ret < 0 and e.ret != -ERRNO["EINTR"]:
                 return cells        # the mode fails here by itself
             k = occ.get((side, e.nr), 0)
             occ[(side, e.nr)] = k + 1
+            name = "fork" if e is creator else step_name(side, e.nr)
             if side == "parent":
-                cells.append((side, e.nr, k, 0, k))
+                cells.append(dict(side=side, nr=e.nr, occ=k, scope=0, k=k, name=name, after_fork=after))
             else:
-                p_pre = sum(1 for x in par_all if x.nr == e.nr and fork_seq is not None and x.seq < fork_seq)
-                p_post = sum(1 for x in par_all if x.nr == e.nr and fork_seq is not None and x.seq > fork_seq)
+                p_pre = sum(1 for x in par_all if x.nr == e.nr and x.seq < fork_seq)
+                p_post = sum(1 for x in par_all if x.nr == e.nr and x.seq > fork_seq)
                 if p_post == 0:
-                    cells.append((side, e.nr, k, 3, p_pre + k))    # nobody else issues this call until DISARM: scope "all"
+                    # nobody else issues this call until DISARM: scope "all"
+                    cells.append(dict(side=side, nr=e.nr, occ=k, scope=3, k=p_pre + k, name=name, after_fork=True))
                 else:
-                    cells.append((side, e.nr, k, 2, k))            # scope "children of the caller"
+                    cells.append(dict(side=side, nr=e.nr, occ=k, scope=2, k=k, name=name, after_fork=True))
     return cells
 
 
@@ -1201,7 +1106,8 @@ class Judge:
         soft = None
         for f in fails:
             # retries that the code is allowed (not required) to make: EINTR on the sync-pipe read, EBUSY on dup
-            if (f[2] == "sync-pipe-read" and f[4] == ERRNO["EINTR"]) or (f[2] == "dup2" and f[4] == ERRNO["EBUSY"]):
+            after_fork = bool(kids) and f[0] > min(ch["fork_seq"] for _, ch in kids)
+            if (f[1] == "parent" and after_fork and f[4] == ERRNO["EINTR"]) or (f[2] == "dup2" and f[4] == ERRNO["EBUSY"]):
                 soft = soft or f
                 continue
             first = f
@@ -1225,15 +1131,15 @@ class Judge:
                 if ch["exec_seq"] is None and (ch["exit"] is None or ch.get("exit_seq", 1 << 62) > ret_seq):
                     # still there when the caller got its error: must at least never run probe code (checked above)
                     ck.count("child_alive_at_error_return")
-            if first is None and soft is not None and soft[2] == "sync-pipe-read":
+            if first is None and soft is not None and soft[1] == "parent":
                 # an interrupted read is not a failed step: the documented retry is required
                 if kind == 0 and code == ERRNO["EINTR"]:
-                    self.viol("C13/sync-pipe-read/eintr-not-retried", c, co,
-                              "the read of the CLOEXEC sync pipe was interrupted (EINTR) and spawn returned Err(EINTR) although no step of "
+                    self.viol("C13/%s/eintr-not-retried" % soft[2], c, co,
+                              "the caller's wait on the CLOEXEC sync pipe was interrupted (EINTR) and spawn returned Err(EINTR) although no step of "
                               "the spawn failed%s" % ("; the child exec'd the program" if any(ch["exec_seq"] for _, ch in kids) else ""))
                 else:
-                    self.viol("C13/sync-pipe-read/eintr-not-retried", c, co,
-                              "the read of the CLOEXEC sync pipe was interrupted (EINTR) and spawn returned an error (kind=%d code=%d) although "
+                    self.viol("C13/%s/eintr-not-retried" % soft[2], c, co,
+                              "the caller's wait on the CLOEXEC sync pipe was interrupted (EINTR) and spawn returned an error (kind=%d code=%d) although "
                               "no step of the spawn failed" % (kind, code))
                 ck.note_distinct("%s/defect/eintr-not-retried" % self.fl)
                 return "judged"
@@ -1671,24 +1577,6 @@ def _run(ck, quick, sysmon, helper_src, flavours, root, replay):
                 sh.cases += [make_mode(sp, sh, helper_b, next_id()) for sp in sh.discovery]
                 shards.append(sh)
             fl["next_idx"] = idx + 100
-            first = Shard(root, fl, idx)
-            idx += 1
-            first.probe_env = probe_env_for(r)
-            inj = gen_injections(r, first, helper_b, next_id, (not quick) and heavy)
-            # spread the injections over several probe processes
-            chunk = 45
-            for i in range(0, len(inj), chunk):
-                if i == 0:
-                    first.cases = inj[:chunk]
-                    shards.append(first)
-                    continue
-                sh2 = Shard(root, fl, idx)
-                idx += 1
-                sh2.probe_env = probe_env_for(r)
-                for c in inj[i:i + chunk]:
-                    rehome(c, first, sh2)   # links were created in the first shard's directory
-                sh2.cases = inj[i:i + chunk]
-                shards.append(sh2)
         for sh in shards:
             for c in sh.cases:
                 materialize(c, sh)
@@ -1720,23 +1608,30 @@ def _run(ck, quick, sysmon, helper_src, flavours, root, replay):
                 if cells is None:
                     ck.note_inconclusive("%s: mode %s: no complete un-injected run to discover its calls from" % (fl["name"], sp["name"]))
                     continue
-                for ci, (side, nr, occ, scope, k) in enumerate(cells):
+                for ci, cell in enumerate(cells):
                     cells_total += 1
-                    cell_keys.add("%s/%s/%s#%d" % (sp["name"], side, step_name(side, nr), occ))
+                    cell["key"] = "%s/%s/%s#%d" % (sp["name"], cell["side"], cell["name"], cell["occ"])
+                    cell_keys.add(cell["key"])
                     for j in range(nerr):
                         en = GEN_ERRNOS[(ci + j + len(sp["name"])) % len(GEN_ERRNOS)]
-                        todo.append((sp, side, nr, occ, scope, k, en))
+                        todo.append((sp, cell, en, 1))
+                    if cell["side"] == "parent" and cell["after_fork"]:
+                        # an interrupted call of the caller while the child is under way is not a failed step:
+                        # interrupted once / twice / three times in a row, the expected result stays Ok
+                        for count in ((1, 2, 3) if nerr > 1 else (1 + (ci + len(sp["name"])) % 3,)):
+                            todo.append((sp, cell, "EINTR", count))
             for i in range(0, len(todo), 60):
                 sh2 = Shard(root, fl, fl["next_idx"])
                 fl["next_idx"] += 1
                 sh2.probe_env = sh.probe_env
-                for sp, side, nr, occ, scope, k, en in todo[i:i + 60]:
+                for sp, cell, en, count in todo[i:i + 60]:
                     c = make_mode(sp, sh2, helper_b, next_id())
                     c["kind"] = "inject"
-                    c["inj"] = [(scope, nr, k, -ERRNO[en], 1)]
-                    c["fault"] = (step_name(side, nr), occ, ERRNO[en])
-                    c["cell"] = "%s/%s/%s#%d" % (sp["name"], side, step_name(side, nr), occ)
-                    c["note"] = "mode %s: refuse %s %s#%d with %s" % (sp["name"], side, step_name(side, nr), occ, en)
+                    c["inj"] = [(cell["scope"], cell["nr"], cell["k"], -ERRNO[en], count)]
+                    c["fault"] = (cell["name"], cell["occ"], ERRNO[en])
+                    c["cell"] = cell["key"] + ("/EINTR" if en == "EINTR" else "")
+                    c["note"] = "mode %s: refuse %s %s#%d with %s%s" % (sp["name"], cell["side"], cell["name"], cell["occ"], en,
+                                                                       " x%d" % count if count > 1 else "")
                     materialize(c, sh2)
                     sh2.cases.append(c)
                 phase2.append(sh2)
@@ -1799,7 +1694,7 @@ def _run(ck, quick, sysmon, helper_src, flavours, root, replay):
         ck.note_inconclusive("%d injected fault(s) were never reached by the spawn sequence" % ck.counters["injection_not_reached"])
     ck.exhaustive = False
     ck.extra["flavours"] = [f["name"] for f in flavours]
-    ck.extra["fault_positions"] = {k: dict(scope=v[0], nr=v[1], errnos=v[2] + ([] if quick else v[3])) for k, v in FAULTS.items()}
+    ck.extra["refusal_errnos"] = GEN_ERRNOS + ["EINTR (x1..x3, on the caller's calls after the fork: retry required)"]
     ck.assume("the process tree and every system-call result are taken from the ptrace monitor (engines/sysmon); the 'spawn returned' "
               "marker is issued by the probe immediately after spawn() and a non-caller process passing it is contained with exit_group(77)")
     ck.assume("the exec target (probes/dump_helper, plain std/libc) learns its case id and exit code only from the name of its own "
@@ -1816,12 +1711,12 @@ def _run(ck, quick, sysmon, helper_src, flavours, root, replay):
             "entries without '=', cwd absolute/relative/non-UTF-8, uid/gid/pgroup on/off, stdio unset/Inherit/Null/MakePipe/RawFd per stream "
             "with a data round trip, 0..3 pre-exec closures) run by a std-linked probe (tiny-std without `start`) and a no-libc probe (with "
             "`start`) under the ptrace monitor; failures by real means (ENOENT/EACCES/ENOEXEC/ENOTDIR/ELOOP/ENAMETOOLONG programs, bad cwd, "
-            "setgid after setuid, foreign pgroup, closed RawFd, failing closure) and injected at every parent-side (pipe2 k, open /dev/null k, "
-            "fork, sync-pipe read) and child-side (dup k, chdir, setuid, setgid, setpgid, execve) call x errno list; in addition a DISCOVERED "
+            "setgid after setuid, foreign pgroup, closed RawFd, failing closure); faults by a DISCOVERED "
             "enumeration: every parent/stdio mode (plain, pipes, nulls, files, shared/own/crossed RawFd, full settings, each closed-0/1/2 "
             "variant of the caller, real exec failure) is first run un-injected, the tracer's log gives every call the caller makes inside "
-            "Command::spawn and every call the forked child makes up to execve, and each (mode, side, call, occurrence) is then refused in turn "
-            "(never refused: close, exit, exit_group, write, wait4); distinct = (flavour, "
+            "Command::spawn and every call the forked child makes up to the exec (process creation and exec recognised by the tracer's F/E "
+            "events, not by number), and each (mode, side, call, occurrence) is then refused in turn with an errno list, the caller's calls "
+            "after the fork also interrupted with EINTR x1..3 (never refused: close, exit, exit_group, write, wait4); distinct = (flavour, "
             "kind, stdio modes | env/arg size classes | cwd/uid/gid/pgroup/closures | failing step x errno) cells of judged cases")
 
 
@@ -1848,27 +1743,3 @@ def preflight(root, helper, helper_b):
     if os.geteuid() != 0:
         return "not running as root (the uid/gid scenarios need it)"
     return None
-
-
-def rehome(c, old, new):
-    """Move the per-case files of case c from shard `old` to shard `new`."""
-    def mv(p):
-        if p is None:
-            return p
-        if p.startswith(old.bdir + b"/"):
-            rel = p[len(old.bdir):]
-            q = new.bdir + rel
-            if os.path.lexists(p) and os.path.basename(p).startswith(b"h."):
-                os.rename(p, q)
-            return q
-        return p
-    if c["bin"].startswith(b"./"):
-        name = c["bin"][2:]
-        if os.path.lexists(os.path.join(old.bdir, name)):
-            os.rename(os.path.join(old.bdir, name), os.path.join(new.bdir, name))
-    else:
-        c["bin"] = mv(c["bin"])
-    if c["cwd"] is not None:
-        c["cwd"] = mv(c["cwd"])
-
-
